@@ -10,6 +10,8 @@ case against the model and against the specification inside Coq, (4) decide.
 Exit 0 = property held on everything explored (KNOWN-FINDING lines allowed);
 exit 1 + "VIOLATION property=<id> replay=<path>" otherwise.  DESIGN.md §6.
 """
+import sys as _sys
+_sys.setrecursionlimit(100000)
 import sys, os, json, subprocess, time, re, fcntl, hashlib, shutil, glob
 from concurrent.futures import ThreadPoolExecutor
 
